@@ -107,6 +107,15 @@ def r1_decisions_recorded(ctx):
     else:
         falses = [s for s, st in my.assigns() if st["dst"]["l"] == 0 and not st["dst"].get("p") and st["rv"]["k"] == "use"
                   and st["rv"]["ops"][0].get("k") == "const" and st["rv"]["ops"][0].get("ev") == 0]
+        # exits taken only while ExecutionState::cleanup runs are outside the recorded execution: the execution has ended, no task step
+        # follows and nothing is (or should be) appended to the schedule (D9)
+        fsy = FlowSlicer(my)
+        sched_sites = {x for x, t in my.calls() if ES + "schedule" in my.callees_of_call(t, passed=False)}
+        post = [s for s in falses if ("field:" + E + "ExecutionState.in_cleanup") in fsy.guard_labels(s)
+                and my.path_exists(None, lambda x, s=s: x == s, lambda x: x in sched_sites) is not None]
+        w_cl = kinds.writers_of_field(prog, E + "ExecutionState.in_cleanup", {"shuttle_engine"}, kinds=("assign", "call_dst"))
+        kinds.check_who_may(ctx, "C01.R1", "writer of ExecutionState.in_cleanup", set(w_cl), {ES + "cleanup"})
+        falses = [s for s in falses if s not in post]
         ctx.floor("C01.R1", "`return false` sites in maybe_yield", len(falses), 1)
         for i, s in enumerate(falses):
             wv = kinds.must_precede(prog, my, s, {ADV})
